@@ -36,95 +36,11 @@ func c07Rules(p *core.Prog, r *core.Run) {
 	pkg := p.PkgFuncs(Ech)
 
 	// --- B2: buffers
-	aliasesParam := func(v ssa.Value, fn *ssa.Function) (bool, string) {
-		// does the value share memory with a slice parameter of fn?
-		seen := map[ssa.Value]bool{}
-		var walk func(v ssa.Value) (bool, string)
-		walk = func(v ssa.Value) (bool, string) {
-			if v == nil || seen[v] {
-				return false, ""
-			}
-			seen[v] = true
-			switch v := v.(type) {
-			case *ssa.Parameter:
-				if _, ok := v.Type().Underlying().(*types.Slice); ok {
-					return true, v.Name()
-				}
-			case *ssa.Slice:
-				return walk(v.X)
-			case *ssa.Phi:
-				for _, e := range v.Edges {
-					if a, n := walk(e); a {
-						return a, n
-					}
-				}
-			case *ssa.ChangeType:
-				return walk(v.X)
-			case *ssa.Call:
-				if bi, ok := v.Call.Value.(*ssa.Builtin); ok && bi.Name() == "append" {
-					return walk(v.Call.Args[0]) // append's result aliases its first argument only
-				}
-			case *ssa.UnOp:
-				if a, ok := p.IsCellLoad(v); ok {
-					st, _ := p.CellDefs(a)
-					for _, s := range st {
-						if al, n := walk(s.Val); al {
-							return al, n
-						}
-					}
-				}
-			}
-			return false, ""
-		}
-		return walk(v)
-	}
-	for _, bufName := range []string{"readBuf", "writeBuf"} {
-		for i, st := range fieldStores(p, pkg, m.fConn[bufName]) {
-			root := core.Root(st.Parent())
-			v := p.X(st.Val)
-			key := fmt.Sprintf("%s:store#%d@%s", bufName, i, p.FuncName(root))
-			al, pname := aliasesParam(st.Val, st.Parent())
-			if al {
-				r.Check("C07.B2", key, false, p.InstrPos(st), "%s is made to share memory with the caller's slice %q: bytes withheld in the buffer change when the caller reuses its slice", bufName, pname)
-				continue
-			}
-			switch {
-			case bufName == "readBuf" && root == m.newConn:
-				r.Check("C07.B2", key, v.Op == "ext" && v.Args[0].Name == "(*ech.clientHello).Marshal", p.InstrPos(st), "NewConn: first flight = Marshal() output")
-			case bufName == "readBuf" && root == m.read && v.Op == "slice":
-				// readBuf[n:] with n = copy(b, readBuf)
-				lo := v.Args[1]
-				ok := v.Args[0].Op == "field" && v.Args[0].Obj == m.fConn["readBuf"] && v.Args[2].Name == "_" &&
-					lo.Op == "call" && lo.Name == "copy" && lo.Args[0].Op == "param" && lo.Args[0].Name == "p1" && lo.Args[1].Op == "field" && lo.Args[1].Obj == m.fConn["readBuf"]
-				r.Check("C07.B2", key, ok, p.InstrPos(st), "Read: readBuf = readBuf[n:] with n the result of copy(b, readBuf): %s", short(v))
-			case bufName == "readBuf" && root == m.read:
-				okAlts := true
-				for _, a := range v.Alts() {
-					isRec := a.Op == "ext" && a.Name == "#0" && a.Args[0].Name == "ech.readRecord"
-					isInner := a.Op == "ext" && a.Name == "#0" && a.Args[0].Name == "(*ech.clientHello).Marshal"
-					if !isRec && !isInner {
-						okAlts = false
-					}
-				}
-				r.Check("C07.B2", key, okAlts, p.InstrPos(st), "Read: readBuf = the record just read (whole, or the part received before an error) or the re-marshalled inner hello: %s", short(v))
-			case bufName == "writeBuf" && root == m.write && v.Op == "call" && v.Name == "append":
-				ok := v.Args[0].Op == "field" && v.Args[0].Obj == m.fConn["writeBuf"] && v.Args[1].Op == "param" && v.Args[1].Name == "p1"
-				r.Check("C07.B2", key, ok, p.InstrPos(st), "Write: writeBuf = append(writeBuf, b...) (a copy of the caller's bytes)")
-			case bufName == "writeBuf" && root == m.write && v.Op == "slice":
-				lo := v.Args[1]
-				ok := v.Args[0].Op == "field" && v.Args[0].Obj == m.fConn["writeBuf"] && v.Args[2].Name == "_" && lo.Op == "ext" && lo.Name == "#0" && lo.Args[0].Name == "(net.Conn).Write"
-				if ok {
-					w := lo.Args[0].Args[1]
-					// Conn.Write(writeBuf[:sz]), sz = int(length)+5
-					ok = w.Op == "slice" && w.Args[0].Op == "field" && w.Args[0].Obj == m.fConn["writeBuf"] && w.Args[1].Name == "_" && isRecordSize(m, w.Args[2], "writeBuf")
-				}
-				r.Check("C07.B2", key, ok, p.InstrPos(st), "Write: writeBuf = writeBuf[n:] with n the count returned by Conn.Write(writeBuf[:5+length]): %s", short(v))
-			default:
-				r.Check("C07.B2", key, false, p.InstrPos(st), "unexpected store to %s: %s", bufName, short(v))
-			}
-		}
-	}
-	r.Floor("C07.B2", 5) // first flight, Read drain, Read record, Write append, Write drain
+	c07Buffers(p, r, m, "C07.B2")
+
+	// a truncated record that came with an error is queued, never parsed: the
+	// retry-mode entry conditions of C06 (no read error, ...)
+	c06State(p, r, m, "C07.retry")
 
 	// --- B3
 	rd := m.read
@@ -385,4 +301,102 @@ func recordLimit(p *core.Prog, r *core.Run, m *echModel, rule string) {
 		}
 		r.Check(rule, p.FuncName(fn)+":limit-tests", n == 1, p.Pos(fn.Pos()), "exactly one record-length limit test (found %d)", n)
 	}
+}
+
+// c07Buffers: every store to the two byte buffers is one of the expected
+// forms and never makes a buffer share memory with a caller's slice (also
+// reported under C01.pipe: a relayed handshake only completes if withheld
+// bytes survive the relay's reuse of its buffer).
+func c07Buffers(p *core.Prog, r *core.Run, m *echModel, rule string) {
+	pkg := p.PkgFuncs(Ech)
+	aliasesParam := func(v ssa.Value, fn *ssa.Function) (bool, string) {
+		// does the value share memory with a slice parameter of fn?
+		seen := map[ssa.Value]bool{}
+		var walk func(v ssa.Value) (bool, string)
+		walk = func(v ssa.Value) (bool, string) {
+			if v == nil || seen[v] {
+				return false, ""
+			}
+			seen[v] = true
+			switch v := v.(type) {
+			case *ssa.Parameter:
+				if _, ok := v.Type().Underlying().(*types.Slice); ok {
+					return true, v.Name()
+				}
+			case *ssa.Slice:
+				return walk(v.X)
+			case *ssa.Phi:
+				for _, e := range v.Edges {
+					if a, n := walk(e); a {
+						return a, n
+					}
+				}
+			case *ssa.ChangeType:
+				return walk(v.X)
+			case *ssa.Call:
+				if bi, ok := v.Call.Value.(*ssa.Builtin); ok && bi.Name() == "append" {
+					return walk(v.Call.Args[0]) // append's result aliases its first argument only
+				}
+			case *ssa.UnOp:
+				if a, ok := p.IsCellLoad(v); ok {
+					st, _ := p.CellDefs(a)
+					for _, s := range st {
+						if al, n := walk(s.Val); al {
+							return al, n
+						}
+					}
+				}
+			}
+			return false, ""
+		}
+		return walk(v)
+	}
+	for _, bufName := range []string{"readBuf", "writeBuf"} {
+		for i, st := range fieldStores(p, pkg, m.fConn[bufName]) {
+			root := core.Root(st.Parent())
+			v := p.X(st.Val)
+			key := fmt.Sprintf("%s:store#%d@%s", bufName, i, p.FuncName(root))
+			al, pname := aliasesParam(st.Val, st.Parent())
+			if al {
+				r.Check(rule, key, false, p.InstrPos(st), "%s is made to share memory with the caller's slice %q: bytes withheld in the buffer change when the caller reuses its slice", bufName, pname)
+				continue
+			}
+			switch {
+			case bufName == "readBuf" && root == m.newConn:
+				r.Check(rule, key, v.Op == "ext" && v.Args[0].Name == "(*ech.clientHello).Marshal", p.InstrPos(st), "NewConn: first flight = Marshal() output")
+			case bufName == "readBuf" && root == m.read && v.Op == "slice":
+				// readBuf[n:] with n = copy(b, readBuf)
+				lo := v.Args[1]
+				ok := v.Args[0].Op == "field" && v.Args[0].Obj == m.fConn["readBuf"] && v.Args[2].Name == "_" &&
+					lo.Op == "call" && lo.Name == "copy" && lo.Args[0].Op == "param" && lo.Args[0].Name == "p1" && lo.Args[1].Op == "field" && lo.Args[1].Obj == m.fConn["readBuf"]
+				r.Check(rule, key, ok, p.InstrPos(st), "Read: readBuf = readBuf[n:] with n the result of copy(b, readBuf): %s", short(v))
+			case bufName == "readBuf" && root == m.read:
+				okAlts := true
+				for _, a := range v.Alts() {
+					isRec := a.Op == "ext" && a.Name == "#0" && a.Args[0].Name == "ech.readRecord"
+					isInner := a.Op == "ext" && a.Name == "#0" && a.Args[0].Name == "(*ech.clientHello).Marshal"
+					if !isRec && !isInner {
+						okAlts = false
+					}
+				}
+				r.Check(rule, key, okAlts, p.InstrPos(st), "Read: readBuf = the record just read (whole, or the part received before an error) or the re-marshalled inner hello: %s", short(v))
+			case bufName == "writeBuf" && root == m.write && v.Op == "call" && v.Name == "append":
+				ok := v.Args[0].Op == "field" && v.Args[0].Obj == m.fConn["writeBuf"] && v.Args[1].Op == "param" && v.Args[1].Name == "p1"
+				r.Check(rule, key, ok, p.InstrPos(st), "Write: writeBuf = append(writeBuf, b...) (a copy of the caller's bytes)")
+			case bufName == "writeBuf" && root == m.write && v.Op == "slice":
+				lo := v.Args[1]
+				ok := v.Args[0].Op == "field" && v.Args[0].Obj == m.fConn["writeBuf"] && v.Args[2].Name == "_" && lo.Op == "ext" && lo.Name == "#0" && lo.Args[0].Name == "(net.Conn).Write"
+				if ok {
+					w := lo.Args[0].Args[1]
+					// Conn.Write(writeBuf[:sz]), sz = int(length)+5
+					ok = w.Op == "slice" && w.Args[0].Op == "field" && w.Args[0].Obj == m.fConn["writeBuf"] && w.Args[1].Name == "_" && isRecordSize(m, w.Args[2], "writeBuf")
+				}
+				r.Check(rule, key, ok, p.InstrPos(st), "Write: writeBuf = writeBuf[n:] with n the count returned by Conn.Write(writeBuf[:5+length]): %s", short(v))
+			default:
+				r.Check(rule, key, false, p.InstrPos(st), "unexpected store to %s: %s", bufName, short(v))
+			}
+		}
+	}
+	r.Floor(rule, 5) // first flight, Read drain, Read record, Write append, Write drain
+
 }
